@@ -90,7 +90,7 @@ def check(out, ctx):
         for f in (0, 1):
             reqs.append("pretty\t%s\t%d\t%d" % (bs.hex(), p, f))
     impl = vp.pipe_lines(ctx.direct, reqs)
-    model = vp.pipe_lines(ctx.model, [ctx.pretty_cfg_line] + reqs)[1:]
+    model = vp.pipe_lines(ctx.model, reqs)
     disagree = 0
     nontrivial = set()
     samples = []
